@@ -425,7 +425,7 @@ class Machine(object):
                     cols = list(reversed(cols))
                     d['zz_extra'] = [0]*len(rows)
                 for ci, c in cols:
-                    d[c['name']] = [M.to_python(c, r[ci]) for r in rows]
+                    d[c['name']] = [M.to_python(c, r[ci], numpy_scalars=form.endswith('numpy')) for r in rows]
                 data[key] = d
             added_rows.append((t, rows))
         if st.get('symbols'):
